@@ -287,6 +287,51 @@ def run(ctx):
                                           '%s under failonerror=%r with a function raising %s: not (rows before the failure, then an exception) / (every row accounted for)'
                                           % (wname, pol, exc.__name__),
                                           {'op': wname, 'table': repr(T), 'policy': repr(pol), 'raises': exc.__name__, 'fails on': bad, 'rows': repr(rows), 'error': err})
+        # ---- (c) a converter is applied once to each cell: a converter that remembers what it has seen (an "id must be unique"
+        # validator) next to a converter that fails in another field of the same row.  Reference: one call per cell, row by row.
+        class Duplicate(Exception):
+            pass
+        for ci in range(60 if ctx.thorough() else 20):
+            n = rng.choice([2, 3, 4, 5])
+            T = [['id', 'name', 'qty']] + [[rng.choice([1, 2, 3, 4]), rng.choice(['a', 'b']), rng.choice([1, 'x', 2, None])] for _ in range(n)]
+            for pol in (False, True, 'inline'):
+                def mk():
+                    seen = set()
+
+                    def uniq(v):
+                        if v in seen:
+                            raise Duplicate(v)
+                        seen.add(v)
+                        return v
+                    return uniq
+                # reference
+                ref_uniq, want, want_err = mk(), [('id', 'name', 'qty')], None
+                for r in T[1:]:
+                    out, failed = [], None
+                    for j, (c, f) in enumerate(zip(r, (ref_uniq, None, int))):
+                        if f is None:
+                            out.append(c)
+                            continue
+                        try:
+                            out.append(f(c))
+                        except Exception as e:
+                            failed = failed or e
+                            out.append('E' if pol is False else e)
+                    if failed is not None and pol is True:
+                        want_err = util.errkind(failed)
+                        break
+                    want.append(tuple(out))
+                rows, err = util.collect(etl.convert(T, {'id': mk(), 'qty': int}, failonerror=pol, errorvalue='E'))
+                got = [tuple((('EXC:' + type(c).__name__) if isinstance(c, Exception) else c) for c in r) for r in rows]
+                wantc = [tuple((('EXC:' + type(c).__name__) if isinstance(c, Exception) else c) for c in r) for r in want]
+                ctx.case(('convert-stateful', repr(T), repr(pol)))
+                ctx.count('stateful-converter')
+                ok = got == wantc and err == want_err
+                if not ok:
+                    ctx.spec_fail('convert|policy=%s|stateful-converter' % (pol,),
+                                  'convert with a converter that keeps state: cells that do not fail are not what one call per cell gives under failonerror=%r' % (pol,),
+                                  {'op': 'convert({id: unique-validator, qty: int})', 'table': repr(T), 'policy': repr(pol), 'rows': repr(got), 'error': err,
+                                   'expected rows': repr(wantc), 'expected error': want_err})
     finally:
         config.failonerror = saved
     ctx.exhaustive = True
